@@ -87,9 +87,20 @@ def complete_model(res, ast, m, rng, n_env, cap):
     envs = all_envs(lv, cap) if cap else None
     if envs is None:
         envs = [random_env(lv, rng) for _ in range(n_env)]
-    for env in envs:
+    envs = list(envs)
+    step = max(1, len(envs) // 30)
+    for k, env in enumerate(envs):
         vals = {}
-        if ref_eval_all(m, env, vals) != 1:
+        top = ref_eval_all(m, env, vals)
+        if k % step == 0:
+            # "makes the model true" is what AtLeast.evaluate tells the user: it has to be the truth function the polyhedron is judged by
+            lib = m.evaluate(dict(env)).as_tuple()
+            res.evaluations += 1
+            if lib != (top, top):
+                return {"op": "complete", "model": ast_json(ast), "env": env,
+                        "problem": f"AtLeast.evaluate({env}) is {lib} where sign*sum>=value gives {top}: " + ("the model is reported true for a leaf assignment the polyhedron has no point for"
+                                   if top == 0 else "a satisfying assignment the polyhedron keeps is reported false")}
+        if top != 1:
             continue
         res.evaluations += 1
         x = [vals.get(c) for c, _ in cols]
@@ -99,12 +110,35 @@ def complete_model(res, ast, m, rng, n_env, cap):
             return {"op": "complete", "model": ast_json(ast), "env": env, "problem": f"satisfying assignment {env} has no completion (the evaluated truth values violate the asserted polyhedron or its bounds)"}
     return None
 
+def slack_stream(res, rng, n):
+    """positively signed nodes whose threshold is zero or negative over leaves that can be negative: true at the all-zero
+    assignment, false elsewhere; built directly, through sign=+1, and as the negation of an AtMost"""
+    for _ in range(n):
+        k = rng.randint(1, 3)
+        leaves = [{"k": "var", "id": nm, "b": [rng.randint(-5, -1), rng.randint(0, 3)]} if rng.random() < 0.7 else {"k": "str", "id": nm} for nm in rng.sample(list("abcdx"), k)]
+        v = rng.randint(-6, 0)
+        inner = rng.choice([{"k": "AtLeast", "v": v, "s": 1, "ch": leaves, "id": rng.choice(["T", None])},
+                            {"k": "AtLeast", "v": v, "s": None, "ch": leaves, "id": "T"} if v < 0 else {"k": "AtLeast", "v": 0, "s": 1, "ch": leaves, "id": "T"},
+                            {"k": "Not", "ch": [{"k": "AtMost", "v": v - 1, "ch": leaves, "id": rng.choice(["M", None])}], "id": None}])
+        ast = inner if rng.random() < 0.6 else {"k": rng.choice(["All", "Any"]), "ch": [inner, {"k": "str", "id": "y"}], "id": rng.choice(["W", None])}
+        try:
+            m = build(ast)
+            if m.errors() or not plain(m):
+                continue
+        except Exception:
+            continue
+        res.count("slack_threshold_over_negative_leaves")
+        bad = complete_model(res, ast, m, rng, 0, 4000)
+        if bad:
+            res.violation("oracle", f"{bad['problem']} on {m!r}", bad)
+
 def run(res, tier, seed):
     rng = random.Random(seed * 1000003 + 2)
     res.rule = RULE
+    slack_stream(res, random.Random(seed * 7907 + 2), 40 if tier == "quick" else 400)
     n_models = 400 if tier == "quick" else 5000
     cap = 3000 if tier == "quick" else 20000
-    models = gen_valid(rng, n_models, res, depth_max=4, want=lambda m: plain(m), big=0.0, int_leaves=0.25)
+    models = gen_valid(rng, n_models, res, depth_max=4, want=lambda m: plain(m), big=0.0, int_leaves=0.25, wide=0.03)
     cases = []
     for ast, m in models:
         cols, rows = poly_obs(m, True)
@@ -302,7 +336,8 @@ def replay(payload):
         top = ref_eval_all(m, r["env"], vals)
         x = [vals.get(c) for c, _ in cols]
         ok = None not in x and all(lo <= v <= hi for v, (_, (lo, hi)) in zip(x, cols)) and all(row[0] <= sum(a * b_ for a, b_ in zip(row[1:], x)) for row in rows)
-        print("model", m, "env", r["env"], "value", top, "completion feasible", ok)
-        return 1 if top == 1 and not ok else 0
+        lib = m.evaluate(dict(r["env"])).as_tuple()
+        print("model", m, "env", r["env"], "value", top, "AtLeast.evaluate", lib, "completion feasible", ok)
+        return 1 if (top == 1 and not ok) or lib != (top, top) else 0
     print("model", m, cols, rows)
     return 1
